@@ -1401,6 +1401,11 @@ def balance_stoichiometry(
         preorder_traversal as pre,
     )
 
+    # one-shot iterables (generators) are iterated several times below:
+    if iter(reactants) is reactants:
+        reactants = list(reactants)
+    if iter(products) is products:
+        products = list(products)
     _intersect = sorted(set.intersection(*map(set, (reactants, products))))
     if _intersect:
         if allow_duplicates:
